@@ -222,6 +222,54 @@ def judge(case, tr):
     return None, labels
 
 
+def _sched_scenarios():
+    from props import racecommon as rc
+    P = rc.payload_for
+    # the loop idles once (the virtual clock moves on by poll = 2 s, past the first multiple of ping_rate = 1 s) and is then
+    # parked: exactly one automatic Ping falls due, whatever the other threads are doing at that moment
+    loop = {"bytes": "", "idle_waits": 1}
+    copts = {"ping_rate": 1.0, "poll": 2.0}
+    return {
+        "autoping_vs_large_send": {"deflate": False, "threads": {"A": [["send_binary", rc.big_payload("A", 0, 140000)]]},
+                                   "loop": loop, "copts": copts},
+        "autoping_vs_two_sends": {"deflate": False, "threads": {"A": [["send_text", P("A", 0)], ["send_binary", P("A", 1)]]},
+                                  "loop": loop, "copts": copts},
+        "autoping_vs_compressed_senders": {"deflate": True, "threads": {"A": [["send_text", P("A", 0)]],
+                                                                         "B": [["send_binary", P("B", 0)]]},
+                                           "loop": loop, "copts": copts},
+        "autoping_vs_application_ping": {"deflate": False, "threads": {"A": [["send_ping", "A-0:ping"]]},
+                                         "loop": loop, "copts": copts},
+    }
+
+
+def _sched_judge(scn, out):
+    from harness import wire
+    if out.aborted:
+        return "hang", out.aborted
+    if out.leaked_threads:
+        return "harness", "threads did not unwind: %s" % out.leaked_threads
+    for name, err in out.errors.items():
+        return "escaped_exception", "thread %s: %r" % (name, err)
+    for name, st_ in out.states.items():
+        if st_ not in ("done", "parked"):
+            return "deadlock", "thread %s ended in state %s" % (name, st_)
+    frames, problems = wire.decode_client_frames(out.wire)
+    if problems:
+        return "torn_or_invalid_frames", "; ".join(problems[:3])
+    own = set()
+    for name, calls in scn["threads"].items():
+        for call, result, mro in out.results.get(name, []):
+            if result != "ok":
+                return "send_refused", "%s by %s raised %s on an open connection" % (call[0], name, result)
+            if call[0] == "send_ping":
+                own.add(call[1].encode("utf-8"))
+    auto = [f for f in frames if f.opcode == wire.PING and f.payload not in own]
+    if len(auto) != 1:
+        return "ping_schedule", ("one multiple of ping_rate was crossed while the connection was open, yet %d automatic Pings "
+                                 "are on the wire (frames: %s)" % (len(auto), [wire.OPNAMES.get(f.opcode) for f in frames]))
+    return None
+
+
 class C15(Prop):
     id = "C15"
     level = "exploration"
@@ -295,9 +343,44 @@ class C15(Prop):
                                            "noise_calls": [{"when": ["event", "poll", 1], "do": "bad_close_reason"},
                                                            {"when": ["event", "poll", 2], "do": "bad_close_code"}] if kind == 6 else [],
                                            "while_closing": again, "auto_pong": ap}
-        return [Enumeration("parameter_grid", grid, exhaustive=True)]
+        # "an automatic Ping is written within p after every multiple of r" also while ANOTHER THREAD is in the middle of a
+        # send (holding the write lock, half of its frame on the wire) at the moment the Ping falls due: a scheduled stage
+        # (the deterministic scheduler of C11/C12; every thread order x every single preemption)
+        from props.c11 import C11
+
+        class _Sched(C11):
+            id = "C15"
+
+            def scenarios(self_inner):
+                return _sched_scenarios()
+
+            def judge(self_inner, scn, out):
+                return _sched_judge(scn, out)
+
+            def bound2(self_inner):
+                return []
+
+            def first_use(self_inner):
+                return []
+
+            def in_write(self_inner):
+                return []
+        self._sched = _Sched()
+        inner = self._sched.enumerations(tier)[0]
+
+        def scheduled():
+            for c in inner.make():
+                yield dict(c, sched=True)
+        return [Enumeration("parameter_grid", grid, exhaustive=True),
+                Enumeration("ping_falls_due_while_another_thread_sends_all_single_preemptions", scheduled, exhaustive=True)]
 
     def run_case(self, case):
+        if case.get("sched"):
+            if not hasattr(self, "_sched"):
+                self.enumerations("quick")
+            inner = dict(case)
+            inner.pop("sched")
+            return self._sched.run_case(inner)
         tr = simnet.run_scenario(scenario_of(case))
         bad, labels = judge(case, tr)
         labels.add("p=%s" % case["p"])
